@@ -270,6 +270,49 @@ impl<'a> Visitor for Enumerate<'a> {
 
 macro_rules! cmp_checks {
     ($st:expr, $name:expr, $mk:expr, $f:ty) => {{
+        // the two- and three-operand methods of nalgebra's field interface: the real part must not
+        // change by a single bit with the derivative parts, or their presence, of any operand (a fast
+        // path keyed on absent parts may round differently: fused x * a + b against the two-step form)
+        {
+            use nalgebra::{ComplexField, RealField};
+            let triples: [($f, $f, $f); 4] = [(0.1, 10.0, -1.0), (0.3, 3.0, -0.9), (1.1, 1.1, -1.21), (1.7, 2.5, 0.7)];
+            for (x, a, b) in triples {
+                let mut seen: std::collections::BTreeMap<&str, (u64, usize, usize, usize)> = std::collections::BTreeMap::new();
+                for kx in [1usize, 5, 6] {
+                    for ka in 0..7usize {
+                        for kb in 0..7usize {
+                            let (dx, da, db) = ($mk(x, kx), $mk(a, ka), $mk(b, kb));
+                            let results: [(&str, $f); 6] = [
+                                ("mul_add", ComplexField::mul_add(dx.clone(), da.clone(), db.clone()).re),
+                                ("hypot", ComplexField::hypot(dx.clone(), da.clone()).re),
+                                ("powf", ComplexField::powf(dx.clone(), da.clone()).re),
+                                ("atan2", RealField::atan2(dx.clone(), da.clone()).re),
+                                ("scale", ComplexField::scale(dx.clone(), da.clone()).re),
+                                ("log", ComplexField::log(dx.clone(), da.clone()).re),
+                            ];
+                            $st.evaluations += 6;
+                            for (m, r) in results {
+                                let bits = (r as f64).to_bits();
+                                match seen.get(m) {
+                                    None => {
+                                        seen.insert(m, (bits, kx, ka, kb));
+                                    }
+                                    Some(&(b0, x0, a0, c0)) => {
+                                        if b0 != bits && !(r.is_nan() && f64::from_bits(b0).is_nan()) {
+                                            $st.violation(Violation {
+                                                sig: format!("field method {m} {} re-depends-on-parts", $name),
+                                                case: json!({"type": $name, "method": m, "reals": [x as f64, a as f64, b as f64], "variants": [kx, ka, kb], "first_variants": [x0, a0, c0]}),
+                                                what: format!("{m} at real parts ({x:e}, {a:e}, {b:e}): real part {:e} with operand variants ({kx},{ka},{kb}) but {:e} with ({x0},{a0},{c0})", r as f64, f64::from_bits(b0)),
+                                            });
+                                        }
+                                    }
+                                }
+                            }
+                        }
+                    }
+                }
+            }
+        }
         // 1000 / 1000.5 / 1000.0001: pairs that lie between an absolute and a relative tolerance
         let reals: [$f; 12] = [<$f>::NEG_INFINITY, -2.0, -0.0, 0.0, 1.0, 1.0, 2.0, <$f>::INFINITY, <$f>::NAN, 1000.0, 1000.5, 1000.0001];
         for (i, &a) in reals.iter().enumerate() {
